@@ -552,6 +552,7 @@ type CallArgClause struct {
 type LoopContract struct {
 	Index      string // name for the hidden index of a range loop
 	Visited    string // name for the visited set of a map range loop
+	Coll       string // name for the (once evaluated) ranged collection
 	Invariants []*Clause
 	EndAsserts []*Clause // lemmas about one iteration, proved at the end of the loop body (may use athead(e))
 	Decreases  *Clause
@@ -730,6 +731,8 @@ func parseContractText(pkg, fname, text string) (*ContractFile, error) {
 				lc.Index = strings.TrimSpace(body)
 			case "visited":
 				lc.Visited = strings.TrimSpace(body)
+			case "coll":
+				lc.Coll = strings.TrimSpace(body)
 			case "invariant":
 				c := &Clause{Kind: "invariant", Loop: n, Text: body, Line: where}
 				lc.Invariants = append(lc.Invariants, c)
